@@ -66,7 +66,7 @@ CHECKS = {
          "DESIGN.md §5 C02"),
  "C05": ("exploration",
          "runtime monitor: independent decode of the produced slug compared with the tree description and the physical target of every link; Unpack of the result; exhaustive link shapes x option sets",
-         "A world with a prefix-sharing sibling and canary-filled outside area gets links of 37 shapes at 3 depths (incl. links that stay inside as written but are led outside by another link); each is packed under {dereference} x {ignore} x 5 allow-lists (exhaustive for single links, PRNG for combinations). The slug is decoded with archive/tar and every entry is checked: no canary without dereferencing, no out-of-tree or root-climbing link stored without allow-list, refusal is an IllegalSlugError, dereferenced content equals the physical target, and Unpack accepts slugs from all-relative trees.",
+         "A world with a prefix-sharing sibling and canary-filled outside area gets links of 41 shapes at 3 depths (incl. links that stay inside as written but are led outside by another link); each is packed under {dereference} x {ignore} x 5 allow-lists (exhaustive for single links, PRNG for combinations). The slug is decoded with archive/tar and every entry is checked: no canary without dereferencing, no out-of-tree or root-climbing link stored without allow-list, refusal is an IllegalSlugError, dereferenced content equals the physical target, and Unpack accepts slugs from all-relative trees.",
          "Out-of-tree is decided component-wise on the place the target names; absolute in-tree links may be stored as links (pinned by the repository's tests).",
          "DESIGN.md §5 C05"),
  "C20": ("exploration",
